@@ -62,6 +62,7 @@ def check(run):
     p3(R)
     complete(R)
     geometry(R)
+    parser_lifetime(R)
     from . import C14
     with R.as_rule('C02.P3'):
         # the reaction to an event (the automatic Pong) is per event, not per read
@@ -434,3 +435,28 @@ def geometry(R):
                      'it is reported in the ProtocolError event' % (fi.qual, sorted(set(bad))), func=fi, node=c,
                      construct='error text mentions %s' % sorted(set(bad)))
     need(n_sites >= 4, 'parser module: expected at least 4 error construction sites, found %d' % n_sites)
+
+
+def parser_lifetime(R, RID='C02.P3'):
+    """An incremental parser lives as long as the byte stream it parses: no Parser (sub)class is instantiated inside a
+    loop (a parser re-created per read forgets the bytes of the previous read, so a reply cut in two is lost)."""
+    n_sites = 0
+    for key, cx in sorted(R.types.ctxs.items(), key=lambda kv: str(kv[0])):
+        fi = cx.func
+        if fi.module.name.startswith('examples') or (fi.cls is not None and cx.recv != fi.cls.qual):
+            continue
+        if not any(isinstance(c, ast.Call) and U(c.func).split('.')[-1].endswith('Parser') for c in own_nodes(fi.node)):
+            continue
+        g = R.cfg(fi.qual, cx.recv)
+        for n in g.live_nodes():
+            for c in n.calls:
+                for t in R.types.call_targets(c, g.ctx):
+                    if t.kind == 'ctor' and 'parser.Parser' in R.prog.mro(t.cls):
+                        n_sites += 1
+                        inloop = any(fr.kind == 'loop' for fr in n.frames) or n.kind in ('forinit',) and any(
+                            fr.kind == 'loop' for fr in n.frames)
+                        R.ob(RID, 'parser %s created outside loops in %s' % (t.cls.split('.')[-1], fi.qual), not inloop,
+                             '%s is constructed inside a loop in %s: each iteration starts with an empty parser and the bytes '
+                             'fed so far are forgotten' % (U(c), fi.qual), func=fi, node=c,
+                             construct='parser constructed in a loop in %s' % fi.qual)
+    need(n_sites >= 2, 'parser construction sites not found')
